@@ -172,10 +172,25 @@ pub mod boundary {
             // however, this implementation uses more of Rust's knowledge of
             // the type and probably allows for much more optimization.
 
-            // This is both an optimization and necessary because we cannot lock
-            // the same mutex twice.
+            // We cannot lock the same mutex twice, so if both handles refer
+            // to the same list, we lock it once and compare it with itself.
+            // That is not the same as returning `true`: the elements do not
+            // have to be equal to themselves (e.g. a `NaN`).
             if Arc::ptr_eq(&self.inner.0, &other.inner.0) {
-                return true;
+                let this = self.inner.0.lock().unwrap();
+
+                // SAFETY: The rawlist represents a slice of T::Transformed so
+                // we can safely construct a slice from it's parts as long as
+                // we hold the lock.
+                let this = unsafe {
+                    std::slice::from_raw_parts::<T::Transformed>(
+                        this.ptr.cast().as_ptr(),
+                        this.len,
+                    )
+                };
+
+                #[allow(clippy::eq_op)]
+                return this == this;
             }
 
             let (this, other) = self.inner.lock_both(&other.inner);
@@ -470,9 +485,27 @@ pub(crate) struct ErasedList(Arc<Mutex<RawList>>);
 
 impl PartialEq for ErasedList {
     fn eq(&self, other: &Self) -> bool {
-        // This is both an optimization and necessary because we cannot lock
-        // the same mutex twice.
+        // We cannot lock the same mutex twice, so if both handles refer to
+        // the same list, we lock it once and compare it with itself. That is
+        // not the same as returning `true`: the elements do not have to be
+        // equal to themselves (e.g. a `NaN`).
         if Arc::ptr_eq(&self.0, &other.0) {
+            let this = self.0.lock().unwrap();
+
+            for i in 0..this.len() {
+                let elem = this.get(i).unwrap();
+
+                // SAFETY: This value is valid because it is within the length
+                // of the list.
+                let is_eq = unsafe {
+                    (this.vtable.eq_fn)(elem.as_ptr(), elem.as_ptr())
+                };
+
+                if !is_eq {
+                    return false;
+                }
+            }
+
             return true;
         }
 
